@@ -34,6 +34,8 @@ def grids(ctx, rng):
                     else:
                         if cont:
                             o.integrate(t0 + (tf - t0) * 0.4, events=evs)
+                            if dense:
+                                _ = o[np.array(o.t)]        # a lookup with an ARRAY of times while the run is still being continued
                         o.integrate(events=evs)
                     out.append((name, t0, tf, dense, cont, o))
     return out
@@ -94,6 +96,17 @@ def run(ctx):
                     continue
                 checks.append(("nearest", str(int(hit[0])), inp, None))
             ctx.nontrivial((name, t0, tf, dense, cont, qv))
+        # an array of times is looked up like the scalars it contains
+        if dense:
+            qa = np.array([float(x) for x in t[::2]] + [float(0.5 * (a + b)) for a, b in zip(t[:-1], t[1:])][:10])
+            try:
+                ra = o[qa]
+                sc = np.array([o[float(x)].y for x in qa])
+                ok = np.array_equal(np.asarray(ra.t), qa) and float(np.max(np.abs(np.asarray(ra.y).reshape(sc.shape) - sc))) == 0.0
+                ctx.oracle("array-lookup-equals-scalar-lookups", bool(ok), dict(base, queries=qa[:6].tolist()),
+                           what="a[array of times] differs from the scalar lookups by %.2e" % float(np.max(np.abs(np.asarray(ra.y).reshape(sc.shape) - sc))))
+            except Exception as e:
+                ctx.oracle("array-lookup-equals-scalar-lookups", False, dict(base, queries=qa[:6].tolist()), what="a[array of times] raised %r" % (e,))
         # slices
         whole = o[float(t[0]):float(t[-1])]
         ctx.oracle("whole-run-slice", len(whole.t) == n and np.array_equal(whole.t, t), base, what="a time slice spanning the whole run returned %d of %d samples" % (len(whole.t), n))
